@@ -1,3 +1,6 @@
+-- Root of the library: models, lemmas and property theorems that are complete.
+import FontVerif.DriverMain
 import FontVerif.Model.Base
 import FontVerif.Model.Fixed
 import FontVerif.Lemmas.Round
+import FontVerif.Props.C15
